@@ -28,7 +28,15 @@ spec = {
   #   (without "nth" the match must be unique)
   "select": {...},
   "ignore_calls": ["logger.debug"],   # expression statements calling these are skipped
+  "bind": ["$v = $v - 1", ...],       # patterns with metavariables naming locals by their ROLE (exactly one match in the
+                                      # function or, failing that, its callees); $v may be used in selectors / inputs
 }
+prefix bounds (start_at / stop_at): a node class name, "text:<prefix>", or "assign:<name>" (the statement binding it).
+
+Before selection / translation the function is PREPARED (see design/PYTRANS.md, "Robustness against
+behaviour-preserving refactorings"): same-module / same-class helpers are inlined, module / class constants
+are resolved, guard clauses, loop/comprehension shapes and test polarity are brought to normal forms.  The
+prepared AST is also what the live side of the differential validation runs.
 """
 import ast
 import copy
